@@ -90,9 +90,37 @@ def load_obligations(pid):
     return ob[pid]
 
 
+def _olean_digest(modules, theorems):
+    """digest of the compiled files the audit reads: the same .olean files give the same answer"""
+    import hashlib
+    h = hashlib.sha256()
+    root = os.path.join(LEAN, '.lake', 'build', 'lib', 'lean')
+    for dirpath, _dirs, files in sorted(os.walk(root)):
+        for fn in sorted(files):
+            if fn.endswith('.olean'):
+                p = os.path.join(dirpath, fn)
+                h.update(os.path.relpath(p, root).encode())
+                with open(p, 'rb') as f:
+                    h.update(hashlib.sha256(f.read()).digest())
+    h.update(json.dumps([sorted(modules), list(theorems)]).encode())
+    return h.hexdigest()
+
+
 def audit(pid, modules, theorems):
-    """`#print axioms` on every named theorem.  Returns dict name -> ('ok'|'missing'|'axioms', detail)"""
+    """`#print axioms` on every named theorem.  Returns dict name -> ('ok'|'missing'|'axioms', detail).
+    The answer is remembered per digest of ALL compiled .olean files of the project (plus module and theorem lists): identical
+    compiled files cannot give a different answer, anything rebuilt gives a new digest."""
     os.makedirs(os.path.join(LEAN, '.lake', 'audit'), exist_ok=True)
+    cache_path = os.path.join(LEAN, '.lake', 'audit', 'cache.json')
+    digest = None
+    if os.environ.get('VERIF_AUDIT_CACHE', '1') != '0':
+        try:
+            digest = _olean_digest(modules, theorems)
+            cache = json.load(open(cache_path)) if os.path.exists(cache_path) else {}
+            if digest in cache and set(cache[digest]) == set(theorems):
+                return {t: tuple(v) for t, v in cache[digest].items()}
+        except Exception:  # noqa
+            digest = None
     path = os.path.join(LEAN, '.lake', 'audit', f'Audit_{pid}_{os.getpid()}.lean')
     with open(path, 'w') as f:
         for m in modules:
@@ -115,6 +143,15 @@ def audit(pid, modules, theorems):
             res[t] = ('ok', [])
         else:
             res[t] = ('missing', out[-2000:])
+    if digest is not None and all(v[0] == 'ok' for v in res.values()):
+        try:
+            with LeanLock():
+                cache = json.load(open(cache_path)) if os.path.exists(cache_path) else {}
+                cache = dict(list(cache.items())[-40:])
+                cache[digest] = {t: list(v) for t, v in res.items()}
+                json.dump(cache, open(cache_path, 'w'))
+        except Exception:  # noqa
+            pass
     return res
 
 
@@ -385,6 +422,8 @@ def prove(res, pid, modules, extra_targets=(), clean=False):
     hits = forbidden_scan()
     if hits:
         res.proof_problems.append({'kind': 'forbidden-token', 'detail': hits})
+    if clean:
+        os.environ['VERIF_AUDIT_CACHE'] = '0'          # thorough tier: the axiom audit is re-run, never remembered
     a = audit(pid, modules, theorems)
     for t in theorems:
         st, detail = a[t]
